@@ -410,7 +410,9 @@ impl<'a> Exec<'a> {
                     self.vio("mailbox:is_closed", format!("actor {a}: is_closed() = {} but the model says {}", mb.is_closed(), ma.closed));
                     self.aborted = true;
                 }
-                if ma.live() && !joined {
+                // once the stop hooks have begun, what is still queued will never be handled; when
+                // exactly the implementation lets go of it is not something the property states
+                if ma.live() && !ma.stopping() && !joined {
                     let q = queued_of(&mb);
                     if q != Some(ma.queue.len()) {
                         self.vio("mailbox:queue-length", format!("actor {a}: {q:?} messages queued, the model has {}", ma.queue.len()));
@@ -438,6 +440,10 @@ impl<'a> Exec<'a> {
             let tok = self.tok(m);
             let ok = match mm.call_exp {
                 CallExp::None => cobs == CallObs::NotCall,
+                // a call still queued while its actor runs the stop hooks will never be handled: it
+                // may already have been answered with the explicit error (the latest moment is
+                // decided in the frozen final state)
+                CallExp::Waiting if cobs == CallObs::NoReply => mm.target.is_some_and(|a| self.model.actors[a].stopping() && self.model.actors[a].queue.contains(&m)),
                 CallExp::Waiting => cobs == CallObs::Pending,
                 CallExp::Replied => cobs == CallObs::Ok(tok ^ 0x5555),
                 CallExp::NoReply => cobs == CallObs::NoReply,
